@@ -493,6 +493,74 @@ func genCases(o *lib.Opts) {
 			}
 		}
 	}
+	// 3b. wide parents: 63 … 130 container-typed children under ONE parent (depth 2–3): the depth budget is per level of
+	// nesting, never per sibling — the 64th list/struct/map child of one parent is as valid as the first
+	{
+		children := []struct {
+			t int
+			b []byte
+		}{
+			{lib.LIST, []byte{lib.BYTE, 0, 0, 0, 0}},
+			{lib.LIST, []byte{lib.I32, 0, 0, 0, 1, 0, 0, 0, 9}},
+			{lib.STRUCT, []byte{0}},
+			{lib.STRUCT, []byte{lib.BYTE, 0, 1, 5, 0}},
+			{lib.MAP, []byte{lib.BYTE, lib.BYTE, 0, 0, 0, 0}},
+			{lib.SET, []byte{lib.STRING, 0, 0, 0, 1, 0, 0, 0, 1, 'x'}},
+			{lib.STRING, []byte{0, 0, 0, 1, 'y'}},
+		}
+		widths := []int{63, 64, 65, 70, 130}
+		if o.Tier == "thorough" {
+			widths = append(widths, 1, 2, 62, 66, 127, 128, 129, 200, 300)
+		}
+		for _, w := range widths {
+			for ci, c := range children {
+				for _, parent := range []string{"list", "set", "mapv", "mapk", "struct"} {
+					var t int
+					var b []byte
+					switch parent {
+					case "list", "set":
+						t = lib.LIST
+						if parent == "set" {
+							t = lib.SET
+						}
+						b = binary.BigEndian.AppendUint32([]byte{byte(c.t)}, uint32(w))
+						for i := 0; i < w; i++ {
+							b = append(b, c.b...)
+						}
+					case "mapv":
+						t = lib.MAP
+						b = binary.BigEndian.AppendUint32([]byte{lib.STRING, byte(c.t)}, uint32(w))
+						for i := 0; i < w; i++ {
+							b = append(b, 0, 0, 0, 1, byte('a'+i%26))
+							b = append(b, c.b...)
+						}
+					case "mapk":
+						t = lib.MAP
+						b = binary.BigEndian.AppendUint32([]byte{byte(c.t), lib.I16}, uint32(w))
+						for i := 0; i < w; i++ {
+							b = append(b, c.b...)
+							b = append(b, byte(i>>8), byte(i))
+						}
+					case "struct":
+						t = lib.STRUCT
+						for i := 0; i < w; i++ {
+							b = append(b, byte(c.t), byte((i+1)>>8), byte(i+1))
+							b = append(b, c.b...)
+						}
+						b = append(b, 0)
+					}
+					emit(r, "wide:"+parent, t, append(b, 0xee), w == 64 || w == 65 || (w == 130 && ci < 3))
+					if w == 65 && ci < 5 { // two wide levels: a list of `3` such parents, and the parent as the only field of a struct
+						bb := binary.BigEndian.AppendUint32([]byte{byte(t)}, 3)
+						bb = append(append(append(bb, b...), b...), b...)
+						emit(r, "wide2:"+parent, lib.LIST, bb, ci < 2)
+						sb := append(append([]byte{byte(t), 0, 7}, b...), 0)
+						emit(r, "wide2s:"+parent, lib.STRUCT, sb, false)
+					}
+				}
+			}
+		}
+	}
 	// 4. hostile sizes on non-allocating entry points (and the guard for the others)
 	for _, sz := range []uint32{0x7fffffff, 0x80000000, 0xffffffff, 0x00100001, 0x7ffffff0} {
 		for _, t := range []int{lib.STRING, lib.LIST, lib.SET, lib.MAP} {
